@@ -286,6 +286,8 @@ def new_version(data, allow_custom=None, **kwargs):
     # Set allow_custom appropriately if versioning an object.  We will ignore
     # it for dicts.
     if isinstance(data, stix2.base._STIXBase):
+        new_obj_inner["interoperability"] = data._interoperability
+
         if allow_custom is None:
             new_obj_inner["allow_custom"] = data.has_custom
         else:
